@@ -106,9 +106,10 @@ wrapped_interval<Number>::signed_mul(const wrapped_interval<Number> &x) const {
     if (!msb_start) {
       return unsigned_mul(x);
     } else {
-      // -- check if multiplication will overflow
-      if ((m_start.get_unsigned_bignum() * x.m_start.get_unsigned_bignum()) -
-              (m_end.get_unsigned_bignum() * x.m_end.get_unsigned_bignum()) <
+      // -- check if multiplication will overflow (here and below the
+      // bounds are multiplied as signed numbers)
+      if ((m_start.get_signed_bignum() * x.m_start.get_signed_bignum()) -
+              (m_end.get_signed_bignum() * x.m_end.get_signed_bignum()) <
           wrapint::get_unsigned_max(b).get_unsigned_bignum()) {
         res = wrapped_interval<Number>(m_end * x.m_end, m_start * x.m_start);
       }
@@ -121,15 +122,15 @@ wrapped_interval<Number>::signed_mul(const wrapped_interval<Number> &x) const {
   if (!(msb_start != msb_end || msb_x_start != msb_x_end)) {
     if (msb_start && !msb_x_start) {
       // -- check if multiplication will overflow
-      if ((m_end.get_unsigned_bignum() * x.m_start.get_unsigned_bignum()) -
-              (m_start.get_unsigned_bignum() * x.m_end.get_unsigned_bignum()) <
+      if ((m_end.get_signed_bignum() * x.m_start.get_signed_bignum()) -
+              (m_start.get_signed_bignum() * x.m_end.get_signed_bignum()) <
           wrapint::get_unsigned_max(b).get_unsigned_bignum()) {
         res = wrapped_interval<Number>(m_start * x.m_end, m_end * x.m_start);
       }
     } else if (!msb_start && msb_x_start) {
       // -- check if multiplication will overflow
-      if ((m_start.get_unsigned_bignum() * x.m_end.get_unsigned_bignum()) -
-              (m_end.get_unsigned_bignum() * x.m_start.get_unsigned_bignum()) <
+      if ((m_start.get_signed_bignum() * x.m_end.get_signed_bignum()) -
+              (m_end.get_signed_bignum() * x.m_start.get_signed_bignum()) <
           wrapint::get_unsigned_max(b).get_unsigned_bignum()) {
         res = wrapped_interval<Number>(m_end * x.m_start, m_start * x.m_end);
       }
